@@ -13,6 +13,9 @@ for f in sorted(glob.glob('/verif/seeded/*/meta.json')):
     thor = [p for p, r in m.get('checks_thorough', {}).items() if r.get('exit') == 1 and r.get('violations', 0) > 0 and p not in m.get('detected_by', [])]
     if thor:
         det += " (thorough also: " + ", ".join(thor) + ")"
+    pre = m.get('target_check_before_round_d_hardening')
+    if pre is not None:
+        det += " — before the round-d strengthening its own check " + ("already caught it" if pre.get('detected') else "**missed** it")
     need = (m.get('needs_to_manifest') or '')[:260].replace("|", "\\|").replace("\n", " ")
     summ = (m.get('summary') or '')[:200].replace("|", "\\|").replace("\n", " ")
     print(f"| `{sid}` – {summ} | {m.get('property')} | {need} | {conf} | {det} |")
